@@ -77,6 +77,18 @@ def _agree(job):
     return inp, mins, errs
 
 
+def agree_event(inp, mins):
+    """The `agree` event of one input from the minima of the seven algorithms."""
+    single = all(s == (1,) for u, s in enumerate(inp["syn"], start=1) if u in proj.leaves_of(inp["ot"]))
+    m = dict(mins)
+    if m["oe"] < 0:      # ordered solvers not run on the large inputs: neutral values
+        if single:       # the single-family clause then relates the unordered optima to DTL / LCA
+            m["oe"], m["ob"] = m["thl"], m["lca"]
+        else:
+            m["oe"], m["ob"] = m["ue"], m["ub"]
+    return {"op": "agree", "in": sc.sinput_json(inp), "single": single, "hgtinf": inp["c"]["hgt"] >= INF, "mins": m}
+
+
 def run(ctx):
     thorough = ctx.tier == "thorough"
     rng = random.Random(ctx.seed * 9049 + 10)
@@ -112,15 +124,7 @@ def run(ctx):
                           {"engine": "E3", "op": "agree", "algo": algo, "in": sc.sinput_json(inp)})
         if errs:
             continue
-        single = all(s == (1,) for u, s in enumerate(inp["syn"], start=1) if u in proj.leaves_of(inp["ot"]))
-        m = dict(mins)
-        if m["oe"] < 0:      # ordered solvers not run on the large inputs: neutral values
-            if single:       # the single-family clause then relates the unordered optima to DTL / LCA
-                m["oe"], m["ob"] = m["thl"], m["lca"]
-            else:
-                m["oe"], m["ob"] = m["ue"], m["ub"]
-        events.append({"op": "agree", "in": sc.sinput_json(inp), "single": single, "hgtinf": inp["c"]["hgt"] >= INF,
-                       "mins": m})
+        events.append(agree_event(inp, mins))
         if len(inp["ot"]) >= 5:
             ctx.nontrivial.add(inp)
     ctx.sample({"engine": "E3-trace", "event": events[0]})
@@ -145,11 +149,10 @@ def replay(path):
     inp = sc.sinput_from_json(event["in"])
     ctx = Context("C10", "quick", 0)
     ctx.known = []
-    _, mins, errs = _agree((inp, len(inp["ot"]) <= 11, len(inp["ot"]) <= 9))
+    _, mins, errs = _agree((inp, len(inp["ot"]) <= 11, len(inp["ot"]) <= 9 and len(inp["st"]) <= 7))
     print("minima:", mins, "errors:", errs)
     if errs:
         return 1
-    single = all(s == (1,) for u, s in enumerate(inp["syn"], start=1) if u in proj.leaves_of(inp["ot"]))
-    ev = {"op": "agree", "in": event["in"], "single": single, "hgtinf": inp["c"]["hgt"] >= INF, "mins": mins}
+    ev = agree_event(inp, mins)
     bad = mc.validate_sessions(ctx, "TraceMeta", [[ev]], relevant=CLAUSES)
     return 1 if bad else 0
